@@ -44,12 +44,13 @@ def classify(f):
             if obs[i] < 0 and any(kinds[k] == "default" and names[k] == names[i] and k < i for k in range(len(obs))):
                 got += "+same-name-in-an-earlier-parameter-default"
         ctx = sorted(set((o.get("ctx") or [[]] * len(exp))[i]))
-        if want in ("decl-let", "decl-const") and "forvar-same-name" in ctx:
-            role += "/ctx:in-body-of-for-var-loop-declaring-the-name"
-        elif want in ("decl-let", "decl-const") and "loopcond-same-name" in ctx:
-            role += "/ctx:in-body-of-a-loop-whose-condition-mentions-the-name"
-        elif "default-same-name" in ctx and kinds[i] != "default" and want not in ("cxname",):
-            role += "/ctx:name-also-in-a-parameter-default-of-an-enclosing-function"
+        lexwant = want in ("decl-let", "decl-const", "clsname")
+        if lexwant and "forvar-same-name" in ctx:
+            role = "use/ctx:in-body-of-for-var-loop-declaring-the-name"
+        elif lexwant and "loopcond-same-name" in ctx:
+            role = "use/ctx:in-body-of-a-loop-whose-condition-mentions-the-name"
+        elif "default-same-name" in ctx and want not in ("cxname", "param"):
+            role = "use/ctx:name-also-in-a-parameter-default-of-an-enclosing-function"
         feat = "%s/expected:%s/observed:%s%s" % (role, want, got, "/after-reparse" if ev["ev"] == "Reparse" and iso(exp, next((x.get("obs") for x in tr if x.get("ev") == "Vars"), [])) else "")
     if feat is None:
         feat = "partition-differs"
